@@ -43,6 +43,9 @@ from .types import TStr
 from .types import TTuple
 
 
+ANY_LIST = TList(TOpt(TAny))
+
+
 class LV:
     """A resolved assignment target (sub-expressions evaluated once)."""
 
@@ -373,6 +376,10 @@ class PathRun:
             s = self.S.sort(ty)
             self.implicit(s.is_some(cont.t), 'TypeError', node)
             return self.subscript_read(V(s.v(cont.t), ty.inner), idx, node)
+        if ty is TAny:
+            return self.subscript_read(
+                self.view_any(cont, ANY_LIST, node), idx, node,
+            )
         raise Unsupported('subscript of %s' % ty)
 
     def subscript_store(self, cont: Any, idx: Any, val: Any) -> V:
@@ -406,7 +413,21 @@ class PathRun:
             self.implicit(s.is_some(cont.t), 'TypeError', None)
             inner = self.subscript_store(V(s.v(cont.t), ty.inner), idx, val)
             return V(s.some(inner.t), ty)
+        if ty is TAny:
+            inner = self.subscript_store(
+                self.view_any(cont, ANY_LIST, None), idx, val,
+            )
+            return self.ex.coerce(st, inner, TAny)
         raise Unsupported('subscript store on %s' % ty)
+
+    def view_any(self, v: V, ty: T, node: Any) -> V:
+        """Use a dynamically typed value at static type `ty`: TypeError
+        unless it was injected from that type."""
+        self.ex.any_fns(self.st, ty)
+        self.implicit(
+            self.ex.any_tag(v.t) == self.ex.tag_of(ty), 'TypeError', node,
+        )
+        return self.ex.view(self.st, v, ty)
 
     def _const_int(self, x: Any) -> int:
         if isinstance(x, int):
@@ -773,6 +794,23 @@ class PathRun:
                 z3.K(z3.IntSort(), item.t), z3.simplify(ln), item.ty,
             )
         av, bv = self.ex.as_v(st, a), self.ex.as_v(st, b)
+        if isinstance(op, ast.Mult) and isinstance(av.ty, TList) \
+                and bv.ty is TInt:
+            l1 = z3.simplify(self.ex.list_len(av))
+            if z3.is_int_value(l1) and l1.as_long() == 1:
+                item = V(z3.Select(self.ex.list_arr(av), 0), av.ty.elem)
+                if item.ty is TNone:
+                    # [None] * n: a list of optional values
+                    item = self.ex.coerce(st, item, TOpt(TAny))
+                ln = z3.If(bv.t > 0, bv.t, 0)
+                return self.ex.mk_list(
+                    z3.K(z3.IntSort(), item.t), z3.simplify(ln), item.ty,
+                )
+        if isinstance(op, ast.Add) and isinstance(av.ty, TList) \
+                and isinstance(bv.ty, TTuple) and bv.ty.items \
+                and all(i == av.ty.elem for i in bv.ty.items):
+            # variable-length tuples are modelled as lists
+            bv = self.as_list(bv)
         if isinstance(op, ast.Add) and isinstance(av.ty, TList) \
                 and isinstance(bv.ty, TList):
             return self.list_concat(av, bv)
